@@ -133,7 +133,7 @@ def rule_sib(ctx, R):
     R.analyse(ib.name)
     bails = bail_blocks(ob, fb)
     n_bail = sum(1 for v in bails.values() if v[0] == "bail")
-    R.floor("bail_returns", n_bail, 7, "give-up returns Ok((snapshot, false)) in opt_execute")
+    R.floor("bail_returns", n_bail, 7, "give-up returns Ok((snapshot, false)) in opt_execute (budget, guarded pops, area closure; at least the three kinds)", slack=0.43)
     ocfg = normal_cfg(ob, extra_cut_blocks=[b for b, v in bails.items() if v[0] == "bail"])
     osb, ost = kind_switch(ob, fb)
     ireg = p_c01.exec_regions(ib, fb)
@@ -244,7 +244,7 @@ def rule_rollback(ctx, R):
             ns += 1
             ok = not any(x[0] == "clone" for x in walk(root)) and any(x == ("arg", sp) or (x[0] == "cycle") for x in walk(root)) or root == ("arg", sp)
             R.check(ok, "opt_execute:success_returns_state", "the success return hands back the live state: %s" % show(root, ob)[:120], s["span"]["at"])
-    R.floor("bail_returns", nb, 7, "give-up returns")
+    R.floor("bail_returns", nb, 7, "give-up returns (budget, guarded pops, area closure; at least the three kinds)", slack=0.43)
     R.floor("success_returns", ns, 1, "success return")
     # (c) the real writers are only written when no give-up can follow, and only from the buffers
     _, local_roles, commits, loc = spec_setup(fb, ob)
